@@ -16,6 +16,10 @@ MODULE = __name__
 ALPHABET = 'NRZUFEX'
 SHAPES = [(1, 1), (1, 2), (1, 3), (2, 1), (2, 2), (2, 3), (3, 1), (3, 2), (3, 3), ('scalar', 2), ('partial', 3)]
 UNK = ('unk',)
+# loops wide enough for the packets' and the loop's internal name tables to grow several times
+WIDE_WIDTHS = [330, 400, 700, 1400]
+WIDE_SCRIPTS = ['NN', 'NUN', 'RUR', 'NXN', 'NRZ', 'NUNU', 'ZN', 'NEN', 'NFN']
+WIDE_CASES = [(w, sc, fin) for w in WIDE_WIDTHS for sc in WIDE_SCRIPTS for fin in ('close', 'abort')]
 
 
 class Mismatch(Exception):
@@ -515,6 +519,19 @@ def worker(ctx):
             ctx.violation('dump:%s:%d' % (e.fn, e.rc), 'reading the loop back: %s' % e, info)
         if ctx.drain_events(info):
             pass
+        wide_step = max(1, nchosen // len(WIDE_CASES))
+        if k % wide_step == 7 % wide_step and k // wide_step < len(WIDE_CASES):
+            w, wscript, wfin = WIDE_CASES[k // wide_step]
+            winfo = dict(index=k, wide=True, shape=[2, w], script=wscript, finish=wfin)
+            ctx.count('wide_loop_scripts')
+            try:
+                run_script(ctx, L, (2, w), wscript, wfin, 7000000 + 14 * (k // wide_step))
+                ctx.count('wide_loop_scripts_completed')
+            except Mismatch as m:
+                ctx.violation(m.key + ':wide', m.detail, winfo)
+            except D.DumpError as e:
+                ctx.violation('dump:%s:%d:wide' % (e.fn, e.rc), 'reading the loop back: %s' % e, winfo)
+            ctx.drain_events(winfo)
         if first:
             first = False
             try:
@@ -551,7 +568,9 @@ def run(env):
             state_transitions_observed=sorted(res.sets.get('transitions', ())),
             final_states=sorted(res.sets.get('final_states', ())), packets_delivered=res.count('packets_delivered'),
             updates=res.count('updates'), removals=res.count('removals'), emptied_loops=res.count('emptied_loops'),
-            extra_cases=res.count('extra_cases'), crashes=res.crashes),
+            extra_cases=res.count('extra_cases'),
+            wide_loop_scripts_330_to_1400_items=res.count('wide_loop_scripts'),
+            wide_loop_scripts_completed=res.count('wide_loop_scripts_completed'), crashes=res.crashes),
         violations=res.violations, inconclusive=inconclusive,
         assumptions=['update/remove after CIF_FINISHED may be refused or act on the last delivered packet (DESIGN.md '
                      'section 5, item 2)', 'packet delivery order is unspecified; a NULL-sink next is assumed to consume '
